@@ -139,7 +139,7 @@ def run_call(call):
         kw["sub_detectors"] = call["subs"]
     if call.get("max_workers") is not None:
         kw["max_workers"] = call["max_workers"]
-    kw["decode_reid"] = False
+    kw["decode_reid"] = bool(call.get("decode", False))
     try:
         if len(call["paths"]) > 1 or call.get("concat"):
             arr = pybes3.concatenate_raw(call["paths"], **kw)
@@ -164,7 +164,10 @@ def run_call(call):
                         pass
                     del orders[n_orders:]      # completion orders are recorded for the successful calls only
                     continue
-                arr = reader.arrays(n_blocks=nb, **kw)
+                kw1 = dict(kw)
+                if isinstance(nb, dict):       # {"nb": n, "decode": bool}: per-call options inside a history on one reader
+                    kw1["decode_reid"] = bool(nb.get("decode", False)); nb = nb["nb"]
+                arr = reader.arrays(n_blocks=nb, **kw1)
                 res["values"].append(canon(arr)); res["types"].append(str(arr.type))
             reader.close()
         res["outcome"] = "ok"
